@@ -82,10 +82,10 @@ def gen_wave(rng, n=None):
     return bytes(rng.randrange(256) for _ in range(6 * n))
 
 
-def gen_snapshot(rng, rich=None, path=None):
-    """dict of the 26 snapshot fields (None = absent)."""
-    rich = rng.random() < 0.7 if rich is None else rich
-    p = 0.15 if rich else 0.85
+def gen_snapshot(rng, rich=None, path=None, full=False):
+    """dict of the 26 snapshot fields (None = absent); full: every optional field present."""
+    rich = True if full else (rng.random() < 0.7 if rich is None else rich)
+    p = 0.0 if full else (0.15 if rich else 0.85)
     o = lambda f: opt(rng, f, p)
     sc = o(lambda: rng.randrange(44100, 30000000))
     sr = o(lambda: float(rng.choice([44100, 48000, 22050, 96000])))
@@ -217,6 +217,11 @@ def setter_value(rng, field, cur=None):
     raise KeyError(field)
 
 
+ALL_OPS = ["create_root_crate", "create_root_crate_after", "create_sub_crate", "create_sub_crate_after", "crate.set_name",
+           "crate.set_parent", "crate.set_parent(root)", "remove_crate", "crate.add_track", "crate.remove_track",
+           "crate.clear_tracks", "create_track", "track.update", "remove_track"] + ["track.set_" + f for f in SETTER_FIELDS]
+
+
 class Hist:
     """A history under construction.  Tracks which handles are live so that
     generated operations are applicable.  Lines are harness commands."""
@@ -230,9 +235,12 @@ class Hist:
         self.nc = self.nt = 0
         self.names = {}      # var -> name
         self.ops_used = {}
+        self.op_names = []
+        self.full_track = None   # a track created with every optional field present (every setter applies to it)
 
     def _count(self, op):
         self.ops_used[op] = self.ops_used.get(op, 0) + 1
+        self.op_names.append(op)        # aligned with self.lines (every line is counted just before it is appended)
 
     def fresh_name(self, parent):
         used = {self.names[c] for c, p in self.crates.items() if p == parent}
@@ -273,13 +281,13 @@ class Hist:
         self.crates[v], self.names[v] = None, n
         return "create_root_crate_after", "mkroot_after %s %s %s" % (v, hx(n), after)
 
-    def op_mksub(self):
+    def op_mksub(self, p=None, name=None):
         if not self.crates:
             return None
-        p = self.rng.choice(sorted(self.crates))
+        p = p or self.rng.choice(sorted(self.crates))
         self.nc += 1
         v = "c%d" % self.nc
-        n = self.fresh_name(p)
+        n = name or self.fresh_name(p)
         self.crates[v], self.names[v] = p, n
         return "create_sub_crate", "mksub %s %s %s" % (v, p, hx(n))
 
@@ -303,10 +311,19 @@ class Hist:
         self.names[c] = n
         return "crate.set_name", "rename %s %s" % (c, hx(n))
 
-    def op_setparent(self, last_only=None):
+    def op_setparent(self, last_only=None, c=None, to_root=False):
         if len(self.crates) < 2:
             return None
-        c = self.rng.choice(sorted(self.crates))
+        if to_root:
+            # a crate that can become a root: it has a parent and no root crate carries its name
+            roots = {self.names[s] for s in self.siblings(None)}
+            el = sorted(x for x in self.crates if self.crates[x] is not None and self.names[x] not in roots)
+            if not el:
+                return None
+            c = self.rng.choice(el)
+            self.crates[c] = None
+            return "crate.set_parent(root)", "setparent %s -" % c
+        c = c or self.rng.choice(sorted(self.crates))
         bad = self.descendants(c) | {c}
         cands = [p for p in self.crates if p not in bad and p != self.crates[c]]
         # name clash under the new parent would be rejected on 2.x; avoid
@@ -319,23 +336,25 @@ class Hist:
         self.crates[c] = None if p == "-" else p
         return ("crate.set_parent(root)" if p == "-" else "crate.set_parent"), "setparent %s %s" % (c, p)
 
-    def op_rmcrate(self):
+    def op_rmcrate(self, c=None):
         if not self.crates:
             return None
         leaves = [c for c in self.crates if not self.descendants(c)]
         # mostly leaves (removing inner crates leaves orphans on the unrepaired tree: not our subject)
-        c = self.rng.choice(sorted(leaves if leaves and self.rng.random() < 0.8 else self.crates))
+        c = c or self.rng.choice(sorted(leaves if leaves and self.rng.random() < 0.8 else self.crates))
         gone = self.descendants(c) | {c}
         for g in gone:
             self.crates.pop(g, None)
         self.members = {(a, b) for (a, b) in self.members if a not in gone}
         return "remove_crate", "rmcrate %s" % c
 
-    def op_mktrack(self, rich=None):
+    def op_mktrack(self, rich=None, full=False):
         self.nt += 1
         v = "t%d" % self.nt
-        s = gen_snapshot(self.rng, rich, path="../Music/lib/%s-%d.%s" % (v, self.rng.randrange(1000), self.rng.choice(["mp3", "flac", "wav"])))
+        s = gen_snapshot(self.rng, rich, path="../Music/lib/%s-%d.%s" % (v, self.rng.randrange(1000), self.rng.choice(["mp3", "flac", "wav"])), full=full)
         self.tracks.append(v)
+        if full:
+            self.full_track = v
         return "create_track", "mktrack %s %s" % (v, snap_text(s))
 
     def op_update(self):
@@ -345,10 +364,10 @@ class Hist:
         s = gen_snapshot(self.rng, None, path="../Music/upd/%s-%d.mp3" % (t, self.rng.randrange(1000)))
         return "track.update", "update %s %s" % (t, snap_text(s))
 
-    def op_rmtrack(self):
+    def op_rmtrack(self, t=None):
         if not self.tracks:
             return None
-        t = self.rng.choice(self.tracks)
+        t = t or self.rng.choice(self.tracks)
         self.tracks.remove(t)
         self.members = {(a, b) for (a, b) in self.members if b != t}
         return "remove_track", "rmtrack %s" % t
@@ -360,27 +379,140 @@ class Hist:
         field = field or self.rng.choice(SETTER_FIELDS)
         return "track.set_" + field, "set %s %s %s" % (t, field, setter_value(self.rng, field))
 
-    def op_addtrack(self):
+    def op_addtrack(self, c=None, t=None):
         if not self.crates or not self.tracks:
             return None
-        c, t = self.rng.choice(sorted(self.crates)), self.rng.choice(self.tracks)
+        c, t = c or self.rng.choice(sorted(self.crates)), t or self.rng.choice(self.tracks)
         self.members.add((c, t))
         return "crate.add_track", "addtrack %s %s" % (c, t)
 
-    def op_rmtrackfrom(self):
+    def op_rmtrackfrom(self, pair=None):
         if not self.members:
             return None
-        c, t = self.rng.choice(sorted(self.members))
+        c, t = pair or self.rng.choice(sorted(self.members))
         self.members.discard((c, t))
         return "crate.remove_track", "rmtrackfrom %s %s" % (c, t)
 
-    def op_cleartracks(self):
+    def op_cleartracks(self, c=None):
         if not self.crates:
             return None
         withm = sorted({c for c, _ in self.members})
-        c = self.rng.choice(withm if withm and self.rng.random() < 0.8 else sorted(self.crates))
+        c = c or self.rng.choice(withm if withm and self.rng.random() < 0.8 else sorted(self.crates))
         self.members = {(a, b) for (a, b) in self.members if a != c}
         return "crate.clear_tracks", "cleartracks %s" % c
+
+    # ---- shape of the current state
+    def members_of(self, c):
+        return sorted(t for (a, t) in self.members if a == c)
+
+    def crates_of(self, t):
+        return sorted(c for (c, b) in self.members if b == t)
+
+    def biggest_crate(self):
+        """the crate holding the most tracks (None without memberships)"""
+        cs = sorted(self.crates, key=lambda c: (-len(self.members_of(c)), c))
+        return cs[0] if cs and self.members_of(cs[0]) else None
+
+    def most_shared_track(self):
+        ts = sorted(self.tracks, key=lambda t: (-len(self.crates_of(t)), t))
+        return ts[0] if ts and self.crates_of(ts[0]) else None
+
+    def heaviest_subtree(self):
+        """a crate with sub-crates, preferring subtrees that hold many memberships"""
+        def weight(c):
+            sub = self.descendants(c)
+            return (len(sub) > 0, sum(len(self.members_of(x)) for x in sub | {c}), len(sub))
+        cs = sorted(self.crates, key=lambda c: tuple(-int(x) for x in weight(c)) + (c,))
+        return cs[0] if cs and self.descendants(cs[0]) else None
+
+    def shape(self):
+        return {"crates": len(self.crates), "tracks": len(self.tracks), "memberships": len(self.members),
+                "max_tracks_in_a_crate": max([len(self.members_of(c)) for c in self.crates] or [0]),
+                "max_crates_of_a_track": max([len(self.crates_of(t)) for t in self.tracks] or [0]),
+                "max_children": max([len(self.siblings(p)) for p in list(self.crates) + [None]] or [0]),
+                "max_subtree": max([len(self.descendants(c)) for c in self.crates] or [0])}
+
+    def enrich(self, k=3):
+        """Make the state non-degenerate for the multi-row operations: a crate holding >= k tracks (clear_tracks,
+        remove_track of a middle member), a track held by >= k crates (remove_track), a crate with >= 2 sub-crates that
+        hold tracks themselves (remove_crate of a subtree, set_parent of a middle sibling), >= k root crates."""
+        def go(g, **kw):
+            r = getattr(self, "op_" + g)(**kw)
+            if r:
+                self._count(r[0])
+                self.lines.append(r[1])
+            return r
+        if self.full_track not in self.tracks:
+            go("mktrack", full=True)
+        while len(self.tracks) < k:
+            go("mktrack", rich=False)
+        while len([c for c in self.crates if self.crates[c] is None]) < k:
+            go("mkroot")
+        big = self.biggest_crate() or sorted(self.crates)[0]
+        for t in self.tracks:
+            if len(self.members_of(big)) >= k:
+                break
+            if (big, t) not in self.members:
+                go("addtrack", c=big, t=t)
+        t0 = self.most_shared_track() or self.tracks[0]
+        for c in sorted(self.crates):
+            if len(self.crates_of(t0)) >= k:
+                break
+            if (c, t0) not in self.members:
+                go("addtrack", c=c, t=t0)
+        # a subtree: parent (holding tracks) with two sub-crates holding tracks
+        par = big
+        while len(self.siblings(par)) < 2:
+            go("mksub", p=par)
+        for ch in sorted(self.siblings(par))[:2]:
+            for t in self.tracks[:2]:
+                if (ch, t) not in self.members:
+                    go("addtrack", c=ch, t=t)
+        # a sub-crate that can be moved to the root (no root crate has its name)
+        roots = {self.names[s] for s in self.siblings(None)}
+        if not any(self.crates[x] is not None and self.names[x] not in roots for x in self.crates):
+            go("mksub", p=par, name="u%d" % self.rng.randrange(10 ** 6))
+        return self
+
+    def sweep(self):
+        """One instance of EVERY public mutating operation on the current state: the 26 setters (on the track that has
+        every optional field), then every crate / track / membership operation, each group in random order."""
+        def go(g, **kw):
+            r = getattr(self, "op_" + g)(**kw)
+            if r:
+                self._count(r[0])
+                self.lines.append(r[1])
+            return r
+        if self.full_track not in self.tracks:
+            go("mktrack", full=True)
+        fields = list(SETTER_FIELDS)
+        self.rng.shuffle(fields)
+        for f in fields:
+            go("set", field=f, t=self.full_track)
+        rest = [("rename", {}), ("setparent", {}), ("setparent", {"to_root": True}), ("mkroot", {}), ("mkroot_after", {}),
+                ("mksub", {}), ("mksub_after", {}), ("mktrack", {}), ("update", {}), ("addtrack", {}), ("rmtrackfrom", {}),
+                ("cleartracks", "biggest"), ("rmtrack", {}), ("rmcrate", {})]
+        self.rng.shuffle(rest)
+        for g, kw in rest:
+            if kw == "biggest":
+                kw = {"c": self.biggest_crate()}    # chosen when it runs: an earlier call may have removed crates
+            if g == "setparent" and not kw:
+                for _ in range(12):     # a re-parenting under another crate (not to the root)
+                    c = self.clone()
+                    c.rng = self.rng
+                    r = c.op_setparent()
+                    if r and r[0] == "crate.set_parent":
+                        break
+                else:
+                    continue
+                # replay the successful choice on self
+                v, p_ = r[1].split(" ")[1:3]
+                self.crates[v] = p_
+                self._count(r[0])
+                self.lines.append(r[1])
+                continue
+            go(g, **kw)
+        return self
 
     GENERATORS = ["mkroot", "mkroot_after", "mksub", "mksub_after", "rename", "setparent", "rmcrate", "mktrack",
                   "update", "rmtrack", "set", "addtrack", "rmtrackfrom", "cleartracks"]
@@ -403,17 +535,93 @@ class Hist:
         h.crates, h.tracks, h.members = dict(self.crates), list(self.tracks), set(self.members)
         h.nc, h.nt, h.names = self.nc, self.nt, dict(self.names)
         h.ops_used = dict(self.ops_used)
+        h.full_track = self.full_track
+        h.op_names = list(self.op_names)
         return h
 
 
-def gen_history(rng, schema, n, seed_state=True):
+def gen_history(rng, schema, n, seed_state=True, enrich=False, sweep=False):
     """A history of about n operations (first a few that guarantee crates,
-    tracks and memberships exist)."""
+    tracks and memberships exist).  enrich=True: finish with the operations that
+    make the state non-degenerate for multi-row operations (see Hist.enrich);
+    enrich="early": do that right after the seeding operations instead.
+    sweep: then one instance of every public mutating operation (Hist.sweep),
+    the random operations follow."""
     h = Hist(rng, schema)
     if seed_state:
         h.step("mkroot"); h.step("mktrack", rich=True); h.step("mksub"); h.step("mkroot")
         h.step("addtrack"); h.step("mktrack", rich=False)
+    if enrich == "early":
+        h.enrich()      # the random part then works on a state with multi-row crates / shared tracks / subtrees
+    if sweep:
+        h.sweep()       # every public mutating operation at least once
     while len(h.lines) < n:
         if not h.step():
             break
+    if enrich is True:
+        h.enrich()
     return h
+
+
+# ------------------------------------------------------------------ directory shapes (C16 / C10: c16.probe)
+import itertools
+
+DIR_SHAPES = ["N0"] + ["".join(x) for x in itertools.product("avzg", "avzg", "aevzg")]
+SHAPE_WORD = {"a": "absent", "v": "valid", "z": "zero bytes", "g": "garbage", "e": "present, empty"}
+
+def shape_text(sh):
+    if sh == "N0":
+        return "no directory"
+    return "m.db %s, p.db %s, Database2/ %s" % (SHAPE_WORD[sh[0]], SHAPE_WORD[sh[1]],
+                                                 {"a": "absent", "e": "present and empty"}.get(sh[2], "with m.db " + SHAPE_WORD[sh[2]]))
+
+
+def library_present(sh):
+    """the library's own notion (engine_library_dir_utils.cpp): m.db or Database2/m.db is there"""
+    return sh != "N0" and (sh[0] != "a" or sh[2] in "vzg")
+
+
+def parse_probe(o):
+    if not o.startswith("ok before="):
+        return None
+    head, l0, l1 = o[3:].split(" | ", 2)
+    d = dict(t.split("=", 1) for t in head.split(" "))
+    d["l0"], d["l1"] = l0, l1
+    return d
+
+
+
+
+def shape_of_listing(listing):
+    """the shape letters of a directory from the harness listing ('m.db:<size>:<sha>,Database2/,...')"""
+    if listing == "(no directory)":
+        return "N0"
+    st = {"m.db": "a", "p.db": "a", "Database2/m.db": "a"}
+    d2 = False
+    extra = []
+    if listing != "(empty)":
+        for it in listing.split(","):
+            if it == "Database2/":
+                d2 = True
+                continue
+            name, size, _ = it.rsplit(":", 2)
+            if name not in st:
+                extra.append(name)
+                continue
+            st[name] = "z" if size == "0" else ("g" if size == "4099" else "v")
+    d = "a" if not d2 else ("e" if st["Database2/m.db"] == "a" else st["Database2/m.db"])
+    return st["m.db"] + st["p.db"] + d + ("+" + "+".join(extra) if extra else "")
+
+
+def answer_class(a, detail=True):
+    """harness answer of a c16.probe -> the directory model's alphabet"""
+    if a.startswith("throw:"):
+        n = a[6:]
+        if n.startswith("sqlite::"):
+            return "throw:sqlite_error"
+        return "throw:" + n.split("::")[-1]
+    if a in ("0", "1", "created"):
+        return a
+    if a.startswith("loaded_schema_"):
+        return a if detail else "loaded"
+    return "loaded"       # load_and_observe: a full observation of the loaded library
